@@ -239,7 +239,7 @@ Definition default_dev (pe : peer) (a : faddr) : faddr :=
   {| fa_dev := match fa_dev a with Some d => Some d | None => p_addr pe end;
      fa_ent := fa_ent a; fa_feat := fa_feat a |}.
 
-(* SubscriptionManager.RemoveSubscription *)
+(* SubscriptionManager.RemoveSubscription: only entries of the requesting connection (SKI) are removed *)
 Definition remove_subscription (s : st) (pe : peer) (c : reg_call) : st * list obs * bool :=
   let ca := default_dev pe (rc_cli c) in
   match remote_feature pe (rc_cli c) with
@@ -248,7 +248,7 @@ Definition remove_subscription (s : st) (pe : peer) (c : reg_call) : st * list o
       match local_feature s (rc_srv c) with
       | None => (s, [], true)
       | Some sf =>
-          let keep := filter (fun x => negb (eqb_faddr (e_cli x) ca && same_srv x sf)) (subs s) in
+          let keep := filter (fun x => negb (N.eqb (e_ski x) (p_ski pe) && eqb_faddr (e_cli x) ca && same_srv x sf)) (subs s) in
           if Nat.eqb (length keep) (length (subs s)) then (s, [], true)
           else (set_subs s keep (next_sub s), [ev_reg EvSub ChRemove (p_ski pe) en (rf_addr en rf) sf], false)
       end
@@ -282,8 +282,8 @@ Definition add_binding (s : st) (pe : peer) (c : reg_call) : st * list obs * boo
       end
   end.
 
-(* BindingManager.RemoveBinding (with the repaired filter: an entry is removed iff
-   client address AND server feature match) *)
+(* BindingManager.RemoveBinding (with the repaired filter: an entry is removed iff it belongs to the
+   requesting connection (SKI), and client address AND server feature match) *)
 Definition remove_binding (s : st) (pe : peer) (c : reg_call) : st * list obs * bool :=
   let ca := default_dev pe (rc_cli c) in
   match remote_feature pe (rc_cli c) with
@@ -294,7 +294,7 @@ Definition remove_binding (s : st) (pe : peer) (c : reg_call) : st * list obs * 
       | Some sf =>
           if negb (role_type_ok (lf_role sf) (lf_type sf) RServer (lf_type sf)) then (s, [], true) else
           if negb (has_binding s sf (rf_addr en rf)) then (s, [], true) else
-          let keep := filter (fun x => negb (eqb_faddr (e_cli x) ca && same_srv x sf)) (binds s) in
+          let keep := filter (fun x => negb (N.eqb (e_ski x) (p_ski pe) && eqb_faddr (e_cli x) ca && same_srv x sf)) (binds s) in
           if Nat.eqb (length keep) (length (binds s)) then (s, [], true)
           else (set_binds s keep (next_bind s), [ev_reg EvBind ChRemove (p_ski pe) en (rf_addr en rf) sf], false)
       end
